@@ -18,12 +18,13 @@ def edit_history_tie(ctx, res):
         if any(e[0] == "raised" for e in log): continue
         edits = [e for e in log if e[0] != "serialize"]
         if not objs.values_ok([(k, v) for k, v in before["props"]]): continue
-        reqs.append({"op": "edit.apply", "sf": before, "edits": edits}); metas.append((before, edits, after))
+        if not all(objs.values_ok(c["fields"] if isinstance(c, dict) else c) for c in before["charts"]): continue
+        reqs.append({"op": "edit.apply" if before["kind"] == "sm" else "edit.apply_ssc", "sf": before, "edits": edits}); metas.append((before, edits, after))
     del EDIT_HISTORIES[:]
     for (before, edits, after), m in zip(metas, ctx.lean.eval_sharded(reqs)):
         res.count("edit_histories"); res.count("edit_ops", len(edits)); res.traces += 1
         if m != after:
-            res.tie_break("edit.apply (Model/Edit.lean vs the editing API)", {"before": before, "edits": edits}, after, m)
+            res.tie_break("edit.apply (Model/Edit*.lean vs the editing API)", {"before": before, "edits": edits}, after, m)
 
 
 def make_objects(ctx, res, kind):
@@ -45,10 +46,10 @@ def make_objects(ctx, res, kind):
             if len(sf.charts) > 3:
                 del sf.charts[3:]
         steps = rng.choice([0, 1, 3, 8, 20])
-        before = objs.dump(sf) if kind == "sm" else None
+        before = objs.dump(sf)
         log = (objs.edit_sm if kind == "sm" else objs.edit_ssc)(rng, sf, steps)
         out.append((sf, origin, log))
-        if kind == "sm": EDIT_HISTORIES.append((before, log, objs.dump(sf)))
+        EDIT_HISTORIES.append((before, log, objs.dump(sf)))
     return out
 
 
